@@ -22,6 +22,9 @@ TYPES = {
     "RING4": dict(res=[("S", ["a"])] * 4, edges=[(0, 1), (1, 2), (2, 3), (0, 3)]),
     "RING5": dict(res=[("S", ["a"])] * 5, edges=[(0, 1), (1, 2), (2, 3), (3, 4), (0, 4)]),
     "RING6": dict(res=[("S", ["a"])] * 6, edges=[(0, 1), (1, 2), (2, 3), (3, 4), (4, 5), (0, 5)]),
+    # a ring with a tail (one cycle): tail at the far side of the ring / at the first residue
+    "LASSO": dict(res=[("S", ["a"])] * 6, edges=[(0, 1), (1, 2), (2, 3), (0, 3), (2, 4), (4, 5)]),
+    "LASSO0": dict(res=[("S", ["a"])] * 6, edges=[(0, 1), (1, 2), (2, 3), (0, 3), (0, 4), (4, 5)]),
     "DI3": dict(res=[("D", ["p", "q"]), ("D", ["p", "q"]), ("D", ["p", "q"])], edges=[(0, 1), (1, 2)]),
     "MID7": dict(res=[("S", ["a"]), ("S", ["a"]), ("S", ["a"]), ("K", ["k"]), ("S", ["a"]), ("S", ["a"]), ("S", ["a"])],
                  edges=[(i, i + 1) for i in range(6)]),
